@@ -23,7 +23,8 @@ STATE_MEASURE = "distinct (case kind, verdict, pairs-in-batch pattern) triples"
 COMPONENTS_REAL = ["gemclus.mlcl (validation, decorate_batch, decorate_grads)", "decorated estimators' fit loop, _batchify, _compute_grads",
                    "gemclus GEMINIs (the pure gradient is recomputed by the real GEMINI on the same inputs)"]
 COMPONENTS_STUB = ["RandomState.permutation (split_pairs / join_pairs / other adversarial orders, or faithful)",
-                   "a spy under the decorator on _compute_grads; BaseOptimizer.update_params real/identity"]
+                   "a spy under the decorator on _compute_grads; BaseOptimizer.update_params real/identity",
+                   "crash at an arbitrary point: seams.LineCrash (sys.settrace) raises when the k-th source line of the library is about to run, in interrupted calls of the history"]
 ASSUMPTIONS = ["the pure GEMINI gradient is deterministic, so G_seen - G_pure isolates the injected term (an error in a GEMINI gradient cancels)",
                "tolerance 1e-9*max(1,|G|) on the injected term (it is accumulated in place in floating point)"]
 
